@@ -434,6 +434,15 @@ class Reporter:
         self.violations = []
         self.known_hits = {}
         self.findings = [f for f in load_findings() if f["property"] == prop_id]
+        # replay files of an earlier run of this property and seed would be mistaken for results of this one
+        rdir = os.environ.get("VERIF_REPLAYS", os.path.join(VERIF, "replays"))
+        if os.path.isdir(rdir) and "VERIF_REPLAY" not in os.environ:
+            for old in os.listdir(rdir):
+                if re.fullmatch(r"%s-%d-\d+\.json" % (re.escape(prop_id), self.seed), old):
+                    try:
+                        os.remove(os.path.join(rdir, old))
+                    except OSError:
+                        pass
         self.coverage = {}
         self.assumptions = []
         self.proof = None
